@@ -1131,7 +1131,8 @@ MUTANTS = [
       "\n                **({} if self._boundaries is None else "
       "self._boundaries),\n                **{name: self.facets_satisfying("
       "test_or_set, boundaries_only)\n                   if callable("
-      "test_or_set) else test_or_set\n                   for name, "
+      "test_or_set)\n                   else self._mask_to_indices("
+      "test_or_set)\n                   for name, "
       "test_or_set in boundaries.items()}\n            },\n        )",
       "        tagged = {} if self._boundaries is None else "
       "self._boundaries\n        for name, test_or_set in "
